@@ -109,6 +109,8 @@ class Sim:
         self.stall_prob = 0.0
         self.stall_choices = (0.0005, 0.5, 1.5)
         self.replay_stalls = None       # step -> dt in replay mode
+        self.eager = None               # fault: [poller thread, predicate, stall, delay]
+        self.n_eager = 0
 
     # -- registration -------------------------------------------------------
     def attach_driver(self):
@@ -155,6 +157,23 @@ class Sim:
         if self.step >= self.max_steps:
             self.abort("step-cap")
             return
+        eg = self.eager
+        if eg is not None and lt is not eg[0] and eg[0].state == SLEEPING:
+            # a poller on another core: it sees the state it waits for a few
+            # lines after publication, while the publishing thread is descheduled
+            self.atomic += 1
+            try:
+                hit = eg[1]()
+            finally:
+                self.atomic -= 1
+            if hit:
+                if eg[3] > 0:
+                    eg[3] -= 1
+                else:
+                    self.eager = None
+                    self.n_eager += 1
+                    self._preempt(lt, eg[0], tag, line, force_stall=eg[2])
+                    return
         due = self._wake_due() if self.step_cost else None
         target = self.schedule.at_yield(self, lt, tag, line, due)
         if target is not None and target is not lt:
@@ -166,7 +185,7 @@ class Sim:
             return
         self.yield_point(0, what)
 
-    def _preempt(self, lt, target, tag, line):
+    def _preempt(self, lt, target, tag, line, force_stall=None):
         if target.state == SLEEPING:
             # a timer fires while another thread is in the middle of something
             if target.wake_at > self.clock:
@@ -178,7 +197,7 @@ class Sim:
             return
         self.n_switch += 1
         self.sites.append((tag, line))
-        stall = None
+        stall = force_stall
         if self.replay_stalls is not None:
             stall = self.replay_stalls.get(self.step)
         elif self.stall_prob and self.stall_rng.random() < self.stall_prob:
